@@ -444,6 +444,8 @@ func lattice(g *hx.Gen, n int) []wireCfg {
 		wireCfg{proto: "tcp", emptyTok: true, scopes: true, ping: true},      // no token (oidc-like): the control cipher key is public
 		wireCfg{proto: "tcp", emptyTok: true, enc: true, venc: true, ping: true}, // ... and so is the proxy cipher key; the visitor layer (sk) holds
 		wireCfg{proto: "tcp", emptyTok: true, tlsNil: true},                  // no token, default TLS: nothing readable
+		wireCfg{proto: "websocket", force: true},                             // forcing server, plain frpc behind a websocket upgrade: rejected
+		wireCfg{proto: "kcp", force: true},                                   // forcing server, plain frpc over kcp: rejected
 		wireCfg{proto: "quic"},                                               // quic is always TLS, even with tls.enable=false
 		wireCfg{proto: "quic", tls: true, certMode: 2, force: true},          // quic, mutual certificates
 	)
@@ -489,8 +491,8 @@ func runWire(cfg *hx.RunCfg) error {
 		"Definition NEMPTYTOKEN := Eval vm_compute in count_if wire_empty_token cases.\nPrint NEMPTYTOKEN.\n" +
 		"Definition NPUBLICSECRET := Eval vm_compute in count_if wire_public_reads_secret cases.\nPrint NPUBLICSECRET.\n"}
 	n := cfg.N
-	if n < 21 {
-		n = 21
+	if n < 23 {
+		n = 23
 	}
 	implFail := []map[string]string{}
 	findings := []map[string]string{}
